@@ -15,13 +15,16 @@ succeed; every malformed workbook (exactly one violated rule) raises NetworkTopo
 one request with converted units, route list, strictness and synchronisation vector.
 The for-all part is Props/C20.v.
 """
+import contextlib
 import copy
 import glob
+import io
 import json
 import logging
 import math
 import os
 import tempfile
+import time
 from fractions import Fraction
 from pathlib import Path
 
@@ -688,23 +691,9 @@ def try_design(data):
 
 
 # ------------------------------------------------------------------ canonical forms and comparison
-def decode(v):
-    """model JSON -> python: tagged leaves become str / Fraction / int"""
-    if isinstance(v, str):
-        tag, body = v[:2], v[2:]
-        if tag == 's:':
-            return body
-        if tag == 'q:':
-            n, d = body.split('/')
-            return Fraction(int(n), int(d))
-        if tag == 'z:':
-            return int(body)
-        raise ValueError(v)
-    if isinstance(v, list):
-        return [decode(x) for x in v]
-    if isinstance(v, dict):
-        return {k: decode(x) for k, x in v.items()}
-    return v
+def fq(v):
+    """[num, den] -> Fraction (None stays None)"""
+    return None if v is None else Fraction(v[0], v[1])
 
 
 def same(m, i, path=''):
@@ -748,11 +737,61 @@ def canon_net_impl(data):
 
 
 def canon_net_model(txt):
-    m = decode(json.loads(txt))
-    for e in m['elements']:
-        p = e.get('params', {})
-        if 'per_degree_pch_out_db' in p:
-            p['per_degree_pch_out_db'] = {k: v for k, v in p['per_degree_pch_out_db']}
+    """positional rendering of Run/C20.v -> the shape of gnpy's JSON"""
+    locs, els, conns = json.loads(txt)
+    out = []
+    for e in els:
+        uid, li, kind, rest = e[0], e[1], e[2], e[3:]
+        c, r, la, lo = locs[li]
+        loc = {'latitude': fq(la), 'longitude': fq(lo)}
+        if c is not None:
+            loc['city'] = c
+        if r is not None:
+            loc['region'] = r
+        d = {'uid': uid, 'metadata': {'location': loc}}
+        if kind == 'T':
+            d['type'] = 'Transceiver'
+        elif kind == 'R':
+            d['type'] = 'Roadm'
+            v, restr, pdeg = rest
+            if v is not None:
+                d['type_variety'] = v
+            if restr is not None or pdeg is not None:
+                d['params'] = {}
+                if restr is not None:
+                    d['params']['restrictions'] = {'preamp_variety_list': restr[0], 'booster_variety_list': restr[1]}
+                if pdeg is not None:
+                    d['params']['per_degree_pch_out_db'] = {k: fq(v) for k, v in pdeg}
+        elif kind == 'F':
+            d['type'] = 'Fused'
+            if rest[0]:
+                d['params'] = {'loss': 0}
+        elif kind == 'B':
+            v, ln, lc, ci, co, p2 = rest
+            d['type'], d['type_variety'] = 'Fiber', v
+            d['params'] = {'length': fq(ln), 'length_units': 'km', 'loss_coef': fq(lc), 'con_in': fq(ci), 'con_out': fq(co)}
+            if p2 is not None:
+                d['params']['pmd_coef_sq'] = fq(p2)
+        elif kind == 'A':
+            d['type'] = 'Edfa'
+            d['operational'] = {'gain_target': None, 'tilt_target': None}
+        elif kind == 'E':
+            v, op = rest
+            d['type'] = 'Edfa'
+            if v is not None:
+                d['type_variety'] = v
+            d['operational'] = dict(zip(['gain_target', 'delta_p', 'tilt_target', 'out_voa', 'in_voa'], [fq(x) for x in op]))
+        else:
+            raise ValueError(kind)
+        out.append(d)
+    cx = [[els[a][0] if isinstance(a, int) else a, els[b][0] if isinstance(b, int) else b] for a, b in conns]
+    return {'elements': out, 'connections': cx}
+
+
+def decode_req(m):
+    m = dict(m)
+    for k in ('spacing', 'power_dbm', 'path_bandwidth'):
+        m[k] = fq(m[k])
     return m
 
 
@@ -905,6 +944,16 @@ def oracle_topology(case, data):
             fails.append(('dangling_connection', f'{a} -> {b}'))
     ftypes = final_types(case)
     adj = adjacency(case)
+    # Eqpt rows naming a FUSED site: no amplifier exists there; the converter emits unconnected elements for them
+    orphans = set()
+    for r in case['eqpts'] or []:
+        if ftypes.get(r['a']) == 'FUSED':
+            us = [f"{w} edfa in {r['a']} to {r['z']}" for w in ('east', 'west')]
+            if any(u in by and not any(u in c for c in conns) for u in us):
+                fails.append(('eqpt_on_fused_orphan', f"Eqpt row {r['a']} -> {r['z']} on a FUSED site yields unconnected "
+                              f"elements {us}"))
+                orphans.update(us)
+    els = [e for e in els if e['uid'] not in orphans]
     succ, pred = {}, {}
     for a, b in set(conns):
         succ.setdefault(a, set()).add(b)
@@ -965,6 +1014,8 @@ def oracle_topology(case, data):
         a, z = r['a'], r['z']
         for which in ('east', 'west'):
             uid = f'{which} edfa in {a} to {z}'
+            if uid in orphans:
+                continue
             e = by.get(uid)
             if e is None:
                 fails.append(('eqpt_missing', uid))
@@ -1037,6 +1088,18 @@ def oracle_services(case, rows, out, designed_names):
 
 
 # ------------------------------------------------------------------ the run
+class Timer:
+    def __init__(self):
+        self.t = {}
+
+    def add(self, key, t0):
+        import time
+        self.t[key] = round(self.t.get(key, 0.0) + time.time() - t0, 3)
+
+
+TM = Timer()
+
+
 def strip(case):
     return {k: v for k, v in case.items() if not k.startswith('_')}
 
@@ -1044,7 +1107,9 @@ def strip(case):
 def run(ctx):
     rng = ctx.rng
     logging.disable(logging.CRITICAL)
+    t0 = time.time()
     ctx.proof = common.check_props('C20')
+    TM.add('proofs', t0)
     equipment()
     ctx.rule = ('random workbooks: 2-5 (thorough: up to 10) junction sites joined by chains of 0-3 line sites, types '
                 'ROADM/ILA/FUSED/blank/unknown strings incl. ILA declared on degree != 2, random row orientation and '
@@ -1100,11 +1165,16 @@ def run(ctx):
     cases = corpus + valid + malformed
     terms, meta = [], []
     svc_terms, svc_meta = [], []
-    with tempfile.TemporaryDirectory(prefix='c20_') as tmp, Books() as books:
+    with tempfile.TemporaryDirectory(prefix='c20_') as tmp, Books() as books, \
+            contextlib.redirect_stdout(io.StringIO()):
         for k, c in enumerate(cases):
+            t0 = time.time()
             path = books.materialise(c, tmp, k)
+            TM.add('write', t0)
             rule = c.get('rule')
+            t0 = time.time()
             data, exc = drive_convert(path)
+            TM.add('convert', t0)
             ctx.count('fmt_' + c['fmt'])
             ctx.count('stream_' + ('malformed_' + rule if rule else 'valid'))
             ftypes = final_types(c) if exc is None else {}
@@ -1113,9 +1183,12 @@ def run(ctx):
             ctx.case(strip(c), nontriv)
             impl = classify_exc(exc) if exc is not None else None
             # ---- oracle
-            if rule is None and not c.get('expect_error'):
+            if rule is None:
                 if exc is not None:
-                    ctx.violation('valid_workbook_rejected', f'{type(exc).__name__}: {str(exc)[:200]}', strip(c))
+                    if c.get('fixture'):
+                        ctx.count('fixture_rejected')
+                    else:
+                        ctx.violation('valid_workbook_rejected', f'{type(exc).__name__}: {str(exc)[:200]}', strip(c))
                 else:
                     for t in ftypes.values():
                         ctx.count('site_' + t)
@@ -1126,12 +1199,18 @@ def run(ctx):
                               sum(1 for n in c['nodes'] if norm_type(n['type']) == 'ILA' and ftypes[n['city']] == 'ROADM'))
                     for key, desc in oracle_topology(c, data):
                         ctx.violation(key, desc, strip(c))
+                    t0 = time.time()
                     try:
                         raw, net = try_design(data)
                         ctx.count('designed_ok')
                     except Exception as e:
                         raw = net = None
-                        ctx.violation('design_fails_on_converted', f'{type(e).__name__}: {str(e)[:200]}', strip(c))
+                        if c.get('fixture'):
+                            # shipped workbooks may use amplifier types of another library
+                            ctx.count('fixture_not_designed')
+                        else:
+                            ctx.violation('design_fails_on_converted', f'{type(e).__name__}: {str(e)[:200]}', strip(c))
+                    TM.add('design', t0)
                     if c['fmt'] == 'xlsx' and not c.get('fixture') and k % 5 == 0:
                         from gnpy.tools.convert import convert_file
                         out = convert_file(Path(path))
@@ -1139,7 +1218,9 @@ def run(ctx):
                             ctx.violation('convert_file_differs', 'file written by convert_file != xls_to_json_data', strip(c))
                         ctx.count('convert_file')
                     if c.get('services') is not None and raw is not None:
+                        t0 = time.time()
                         run_services(ctx, c, path, raw, net, svc_terms, svc_meta)
+                        TM.add('services', t0)
             elif rule is not None:
                 if exc is None:
                     ctx.violation('malformed_converted:' + rule,
@@ -1177,6 +1258,7 @@ def run(ctx):
                     req_rows.append(s)
         req_results = [drive_request(s, k % 2 == 0) for k, s in enumerate(req_rows)]
     # ---------------- model evaluation and comparison
+    t0 = time.time()
     lines = common.coq_eval('C20', 'Prelude Model.Sheet Run.C20', terms, per_file=12, prelude='From Coq Require Import QArith.')
     for (c, data, impl, exc), line in zip(meta, lines):
         if line.startswith('E:'):
@@ -1196,7 +1278,9 @@ def run(ctx):
                 ctx.corr_break('corr:Sheet.convert', d, strip(c))
             else:
                 ctx.count('corr_networks_agree')
+    TM.add('coq_convert', t0)
     # services through read_service_sheet
+    t0 = time.time()
     lines = common.coq_eval('C20', 'Prelude Model.Sheet Run.C20', svc_terms, per_file=12, tag='svc',
                             prelude='From Coq Require Import QArith.')
     for (c, out, impl), line in zip(svc_meta, lines):
@@ -1210,7 +1294,7 @@ def run(ctx):
         if impl is not None:
             ctx.corr_break('corr:Sheet.read_service_sheet', 'model converts, gnpy raises', strip(c), impl=impl, model='converted')
             continue
-        ms = [canon_req_model(m, False) for m in decode(json.loads(line))]
+        ms = [canon_req_model(decode_req(m), False) for m in json.loads(line)]
         d = same([m for m, _ in ms], [canon_req_impl(pr) for pr in out['path-request']])
         if not d:
             d = same([[s[0], s[1]] for _, s in ms if s is not None],
@@ -1219,13 +1303,15 @@ def run(ctx):
             ctx.corr_break('corr:Sheet.read_service_sheet', d, strip(c))
         else:
             ctx.count('corr_service_sheets_agree')
+    TM.add('coq_services', t0)
     # Request_element rows
+    t0 = time.time()
     rterms = [f'req_case {equip_term()} {"true" if k % 2 == 0 else "false"} {listlit([req_row_term(s)])}'
               for k, s in enumerate(req_rows)]
     lines = common.coq_eval('C20', 'Prelude Model.Sheet Run.C20', rterms, per_file=60, tag='req',
                             prelude='From Coq Require Import QArith.')
     for s, res, line in zip(req_rows, req_results, lines):
-        m = decode(json.loads(line))[0]
+        m = json.loads(line)[0]
         ctx.count('request_rows')
         if isinstance(m, str):
             if res.get('exc') != m[2:]:
@@ -1237,13 +1323,15 @@ def run(ctx):
         if 'exc' in res:
             ctx.corr_break('corr:Sheet.request_element', 'model builds, gnpy raises', {'service_row': s}, impl=res['exc'], model='built')
             continue
-        mm, sync = canon_req_model(m, True)
+        mm, sync = canon_req_model(decode_req(m), True)
         d = same(mm, canon_req_impl(res['pr'], res['loose']))
         if not d:
             isync = None if res['sync'] is None else [res['sync']['synchronization-id'], res['sync']['svec']['request-id-number']]
             d = same(sync, isync, 'sync')
         if d:
             ctx.corr_break('corr:Sheet.request_element', d, {'service_row': s})
+    TM.add('coq_requests', t0)
+    ctx.extra['timing_s'] = TM.t
     ctx.assumptions += [
         'cell reading is done by openpyxl (real .xlsx files) and, for the .xls branch, by in-memory look-alikes of '
         'xlrd sheets served through gnpy.tools.xls_utils.open_workbook (xlwt is unavailable); real .xls parsing is '
@@ -1306,5 +1394,5 @@ def _is(rule, keys):
 MATCHERS = {
     'C20-self-loop-link': _is('self_loop', ('malformed_converted', 'malformed_wrong_error')),
     'C20-fused-degree': _is('fused_degree', ('malformed_converted', 'malformed_wrong_error')),
-    'C20-eqpt-on-fused': _is('eqpt_on_fused', ('malformed_converted',)),
+    'C20-eqpt-on-fused': lambda v: v['key'] == 'eqpt_on_fused_orphan' or _is('eqpt_on_fused', ('malformed_converted',))(v),
 }
